@@ -73,6 +73,11 @@ def main(argv):
   except framework.InfraError as e:
     print('INFRASTRUCTURE FAILURE: %s' % e, file=sys.stderr)
     return 2
+  except Exception:   # pylint: disable=broad-except  (a bug of the machinery is never a verdict)
+    import traceback
+    traceback.print_exc()
+    print('INFRASTRUCTURE FAILURE: unexpected exception in the check machinery', file=sys.stderr)
+    return 2
 
 
 if __name__ == '__main__':
